@@ -9,6 +9,7 @@ from scipy.sparse.linalg import LinearOperator as spLinearOperator
 from xitorch._core.editable_module import EditableModule
 from xitorch.debug.modes import is_debug_enabled
 from xitorch._utils.bcast import get_bcasted_dims
+from xitorch._utils import verif_hooks as _vh
 
 __all__ = ["LinearOperator"]
 
@@ -207,9 +208,13 @@ class LinearOperator(EditableModule):
         try:
             _orig_params_ = self.getuniqueparams(methodname)
             self.setuniqueparams(methodname, *params)
+            if _vh.ENABLED:
+                _vh.emit("lo.use", op=self, params=params)
             yield self
         finally:
             self.setuniqueparams(methodname, *_orig_params_)
+            if _vh.ENABLED:
+                _vh.emit("lo.unuse", op=self)
 
     ############# implemented functions ################
     def mv(self, x: torch.Tensor) -> torch.Tensor:
